@@ -109,6 +109,13 @@ RefsV(k) == {RefE(S_SUB, "cell", FALSE, 1024, 0, <<41, 83>>, RepV(k), PropsV(k))
              RefE(S_SUB, "cell", TRUE, 1024, 270 * 64, <<-399, 1>>, RepV(k + 2), PR0),
              RefE(S_SUB, "cell", FALSE, 512, 45 * 64, <<3, 3>>, NoRep, PR0),
              RefE(S_SUB, "cell", FALSE, 1024, 30 * 64, <<3, 3>>, NoRep, PR0),
+             \* quarter turns given as negative angles and as more than a turn (unmagnified: the compact
+             \* PLACEMENT record keeps the turn count modulo 4)
+             RefE(S_SUB, "cell", FALSE, 1024, -360 * 64, <<12, 4>>, NoRep, PR0),
+             RefE(S_SUB, "cell", TRUE, 1024, -720 * 64, <<12, 4>>, RepV(k + 4), PR0),
+             RefE(S_SUB, "cell", FALSE, 1024, -90 * 64, <<-8, 4>>, NoRep, PR1),
+             RefE(S_SUB, "cell", FALSE, 1024, 450 * 64, <<-8, 40>>, NoRep, PR0),
+             RefE(S_SUB, "cell", TRUE, 1024, -630 * 64, <<-8, 40>>, NoRep, PR0),
              RefE(S_NOPE, "name", TRUE, 1024, 270 * 64, <<7, -7>>, RepV(k), PR2),
              RefE(S_OUT, "cell", FALSE, 3072, 0, <<8, 8>>, NoRep, PR0)}
 
